@@ -268,9 +268,20 @@ def impl_aggregate(case):
                 "children": list(children)}
 
     nodes = case["nodes"]
-    prog = node(nodes[0], [node(n) for n in nodes[1:]])
-    prog["linked_params"] = [{"source": "N", "targets": [f"{n['name']}.N" for n in nodes[1:]]},
-                             {"source": "eps", "targets": [f"{n['name']}.eps" for n in nodes[1:]]}] if len(nodes) > 1 else []
+    kids = [node(n) for n in nodes[1:]]
+    names = [n["name"] for n in nodes[1:]]
+    if case.get("twin") and len(nodes) > 1:
+        # a second routine of the SAME NAME as the child, with other resources, deeper in the hierarchy and listed before it
+        # (root -> [wrap -> [a'], a]): routines are told apart by where they are, not by what they are called
+        first = nodes[1]
+        inner = node({"name": first["name"], "resources": [[n, t, ["o", "add", [v, ["n", 1, 1]]]] for n, t, v in first["resources"]]})
+        wrap = {"name": "wrap", "input_params": ["N", "eps"], "resources": [], "children": [inner],
+                "linked_params": [{"source": "N", "targets": [f"{first['name']}.N"]}, {"source": "eps", "targets": [f"{first['name']}.eps"]}]}
+        kids = [wrap] + kids
+        names = ["wrap"] + names
+    prog = node(nodes[0], kids)
+    prog["linked_params"] = [{"source": "N", "targets": [f"{n}.N" for n in names]},
+                             {"source": "eps", "targets": [f"{n}.eps" for n in names]}] if names else []
     d = {a: {b: (to_str(m)) for b, m in mp} for a, mp in case["dict"]}
     import copy
     snapshot = copy.deepcopy(d)
@@ -334,7 +345,7 @@ def impl_highwater(case):
     rng = random.Random(case.get("eval_seed", 0))
     evals = []
     for _ in range(case.get("n_eval", 0)):
-        a = {p: rng.randint(1, 6) for p in res.routine.input_params}
+        a = {p: rng.randint(0, 6) for p in res.routine.input_params}      # (zero included: an empty register, no ancillae)
         try:
             ef = {"inexact": False}
             evals.append({"assign": a, "ok": True, "tree": walk_compiled(evaluate(res.routine, a).routine, ef)})
@@ -418,6 +429,8 @@ def impl_minimize(case):
             minimize("(x - 1)**2 + 1", "x", optimizer="gradient_descent", optimizer_kwargs=kw)
         except (ValueError, RuntimeError):
             pass
+    if case.get("x0_int"):
+        kw["x0"] = int(case["x0"])
     if case.get("x0_array"):
         # the start handed over the way scipy-style callers do: a one-element array
         try:
@@ -997,7 +1010,7 @@ def _sympy_direct(e):
         if o == "floor" and len(args) == 1:
             return sympy.floor(args[0])
         return None
-    if k == "f" and e[1] in ("f", "g"):
+    if k == "f" and e[1] in ("f", "g", "lambda_of", "NumPort"):
         args = [_sympy_direct(a) for a in e[2]]
         return None if any(a is None for a in args) else sympy.Function(e[1])(*args)
     return None
